@@ -774,6 +774,116 @@ def kernel_value_table(ctx, clause: str, what: str):
     return True
 
 
+def completion_table(ctx, clause: str):
+    """`optimal_completion` interpreted COMPLETELY (kernel in its mask mode included) over exact values and compared, pair by pair and
+    prefix by prefix, with the definition: for the hypothesis prefix of length k, the tokens ref[j] (j < reference length) at which the
+    row k of the pair's Levenshtein table attains its minimum over j = 0 .. reference length; sorted, without duplicates, padded with
+    `padding`; nothing for prefixes beyond the hypothesis. Costs: unit, unequal, and two triples far larger than any bound that could
+    stand in for 'outside the reference'; eos given / not, include_eos, both layouts, exclude_last."""
+    import numpy as np
+    from fractions import Fraction as Fr
+    from sa.interp import Interp
+    from sa.inteval import NotEvaluable
+    from sa.teval import frac_array
+    col, pkg = ctx.col, ctx.pkg
+    rel = pkg.module(MOD).relname
+    f = pkg.func(f"{MOD}::optimal_completion")
+    kern = pkg.func(f"{MOD}::{KERNEL}")
+    where = f"{rel}::optimal_completion"
+    EOS, PAD = 9, -7
+    refs = [[1, 2, 3, 1], [2, 9, 5, 5], [9, 1, 1, 1], [3, 3, 9, 2], [1, 2, 1, 2]]
+    hyps = [[1, 3, 3], [2, 2, 9], [1, 9, 4], [9, 3, 3], [2, 1, 2]]
+
+    def first_eos(a, eos, dim):
+        a = np.moveaxis(a, dim, 0)
+        out = []
+        for j in range(a.shape[1]):
+            c_ = [int(x) for x in a[:, j]]
+            out.append(c_.index(eos) if eos in c_ else len(c_))
+        return frac_array(out)
+
+    def cut(seq, eos, inc):
+        if eos is None or eos not in seq:
+            return list(seq)
+        k = seq.index(eos)
+        return list(seq[:k + 1]) if inc else list(seq[:k])
+
+    def table(r, h, ins, dele, sub):
+        D = [[Fr(0)] * (len(r) + 1) for _ in range(len(h) + 1)]
+        for j in range(1, len(r) + 1):
+            D[0][j] = D[0][j - 1] + dele
+        for k in range(1, len(h) + 1):
+            D[k][0] = D[k - 1][0] + ins
+            for j in range(1, len(r) + 1):
+                D[k][j] = min(D[k - 1][j] + ins, D[k][j - 1] + dele, D[k - 1][j - 1] + (Fr(0) if r[j - 1] == h[k - 1] else sub))
+        return D
+    bad, n_rows = None, 0
+    try:
+        for costs in ((Fr(1), Fr(1), Fr(1)), (Fr(1), Fr(2), Fr(3)), (Fr(7), Fr(3), Fr(20)), (Fr(10), Fr(10), Fr(15))):
+            for eos in (EOS, None):
+                for inc in ((True, False) if eos is not None else (False,)):
+                    for bf in (False, True):
+                        for excl in (False, True):
+                            holder = {}
+
+                            def leaf(x, env):
+                                if isinstance(x, ast.Call) and call_name(x) == "_lens_from_eos":
+                                    it_ = holder["it"]
+                                    b_ = dict(zip(("tok", "eos", "dim"), x.args))
+                                    b_.update({k.arg: k.value for k in x.keywords})
+                                    return first_eos(it_.eval(b_["tok"], env), it_.eval(b_["eos"], env), int(it_.eval(b_["dim"], env)))
+                                if isinstance(x, ast.Attribute) and isinstance(x.value, ast.Name) and x.value.id == "config":
+                                    from sa.constfold import fold_constant
+                                    v_ = fold_constant(pkg.module("config").tree, x.attr)
+                                    return Fr(v_) if isinstance(v_, float) and v_ == v_ and abs(v_) != float("inf") else v_
+                                return None
+
+                            def lookup(c_):
+                                return kern.node if call_name(c_) == KERNEL else None
+                            it = Interp(leaf=leaf, lookup=lookup, tensors=True)
+                            holder["it"] = it
+                            env = {a.arg: None for a in f.node.args.args}
+                            for a_, d_ in zip(reversed(f.node.args.args), reversed(f.node.args.defaults)):
+                                if isinstance(d_, ast.Constant):
+                                    env[a_.arg] = d_.value
+                            ref, hyp = frac_array(refs).T, frac_array(hyps).T
+                            env.update(ref=ref.T if bf else ref, hyp=hyp.T if bf else hyp, eos=eos, include_eos=inc, batch_first=bf,
+                                       ins_cost=costs[0], del_cost=costs[1], sub_cost=costs[2], padding=PAD, exclude_last=excl, warn=False)
+                            kind, got = it.run(f.node, env)
+                            n_rows += 1
+                            if kind != "return" or not hasattr(got, "shape") or got.ndim != 3:
+                                if bad is None:
+                                    bad = (costs, eos, inc, bf, excl, f"{kind} {str(got)[:80]}", None, None, None)
+                                continue
+                            g = np.asarray(got, dtype=object)
+                            if bf:
+                                g = np.swapaxes(g, 0, 1)  # (prefixes, N, C)
+                            for n_, (r_, h_) in enumerate(zip(refs, hyps)):
+                                rs, hs = cut(r_, eos, inc), cut(h_, eos, inc)
+                                D = table(rs, hs, *costs)
+                                for k_ in range(g.shape[0]):
+                                    if excl and k_ == 0 and not hs:
+                                        continue  # (the empty prefix of an empty hypothesis is also its last: the documentation does not say which wins)
+                                    if k_ <= len(hs) - (1 if excl else 0):
+                                        m_ = min(D[k_])
+                                        want = sorted({rs[j] for j in range(len(rs)) if D[k_][j] == m_})
+                                    else:
+                                        want = []
+                                    row_ = [int(v_) for v_ in g[k_, n_].tolist()]
+                                    ok = row_[:len(want)] == want and all(v_ == PAD for v_ in row_[len(want):])
+                                    if not ok and bad is None:
+                                        bad = (costs, eos, inc, bf, excl, row_, want, (r_, h_), k_)
+    except NotEvaluable as e:
+        col.undecided(f"{where}: optimal_completion is outside the interpreted fragment ({e}); its targets are not decided")
+        return False
+    col.floor("completion_table_rows", n_rows, 40)
+    col.ob("G12", clause, f"{where}::completion-table", bad is None,
+           (f"with costs (ins, del, sub) = {tuple(str(c) for c in bad[0])}, eos={bad[1]}, include_eos={bad[2]}, batch_first={bad[3]}, exclude_last={bad[4]}: for reference "
+            f"{bad[7][0] if bad[7] else ''} and the first {bad[8]} token(s) of hypothesis {bad[7][1] if bad[7] else ''} optimal_completion lists {bad[5]}; the tokens that "
+            f"continue a minimum-cost alignment are {bad[6]} (then padding)") if bad else "", rel, f.line, sample=dict(rows=n_rows))
+    return True
+
+
 def lens_helper_table(ctx, clause: str):
     """`_lens_from_eos` by value: interpreted (sa/interp.py + sa/teval.py; nothing is run) for token matrices laid out (steps, batch)
     with dim=0 and (batch, steps) with dim=1 and dim=-1 - more steps than batch entries and the other way round - with the eos in the
